@@ -45,6 +45,11 @@ Apply(fs, op) ==
             LET whole == Get(fs.pend, p) = NoPend /\
                          (Get(fs.c, p) = "Empty" \/ (GetSz(fs, p) >= 0 /\ op.n >= 0 /\ GetSz(fs, p) <= op.n))
             IN Set(fs.c, Put(fs.pend, p, IF whole THEN op.d ELSE "Other"))
+      [] op.kind = "dwrite"      ->   \* os.sendfile: straight to the file, nothing is buffered in the process
+            IF op.n = 0 THEN fs
+            ELSE LET whole == Get(fs.c, p) = "Empty" \/ (GetSz(fs, p) >= 0 /\ op.n >= 0 /\ GetSz(fs, p) <= op.n)
+                 IN [c |-> Put(fs.c, p, IF whole THEN op.d ELSE "Other"), pend |-> Put(fs.pend, p, NoPend),
+                     sz |-> Put(fs.sz, p, op.n)]
       [] op.kind = "close"       -> IF Get(fs.pend, p) = NoPend THEN fs
                                     ELSE Set(Put(fs.c, p, Get(fs.pend, p)), Put(fs.pend, p, NoPend))
       [] op.kind = "remove"      -> Set(Put(fs.c, p, "Absent"), Put(fs.pend, p, NoPend))
